@@ -93,6 +93,9 @@ def check(ctx):
                 "cannot be re-derived")
     planec = prog.cls(PLANE)
     import ast
+    from .. import vendored
+    vendored.check(ctx, "C14.2", ("euler_from_matrix", "_AXES2TUPLE",
+                                  "_NEXT_AXIS", "_EPS"))
 
     for member in planes:
         node = planec.members[member]
